@@ -260,9 +260,9 @@ NARROW = {"int8": "i", "int16": "i", "uint8": "i", "float32": "f", "complex64": 
 
 
 @st.composite
-def s_binop(draw):
+def s_binop(draw, force_huge=False):
     import os
-    huge = draw(st.integers(1, 2 ** 30)) % (30 if os.environ.get("VF_TIER") == "thorough" else 150) == 7
+    huge = force_huge or draw(st.integers(1, 2 ** 30)) % (30 if os.environ.get("VF_TIER") == "thorough" else 150) == 7
     x = draw(s_signal(n=draw(st.sampled_from([131072, 140001, 2 ** 18])), fams=["smallint", "unif", "alt"]) if huge else s_signal(lmax=64))
     n = x["sig"]["n"]
     y = draw(s_operand(n, x["cls"], x["npol"]))
@@ -274,7 +274,7 @@ def s_binop(draw):
             y["spec"]["noise"]["dt"] = x["sig"]["dt"]
         if x["noise"]:
             x["noise"]["dt"] = x["sig"]["dt"]
-    c = {"x": x, "op": draw(st.sampled_from(["+", "-", "*"])), "y": y, "protect": draw(st.sampled_from([True, True, False]))}
+    c = {"x": x, "op": draw(st.sampled_from(["+", "-", "*"])), "y": y, "protect": draw(st.sampled_from([True, False] if force_huge else [True, True, False]))}
     nw = draw(st.sampled_from([None, None] + sorted(NARROW)))
     if nw and y["kind"] in WRAPPED and NARROW[nw] == x["sig"]["dt"] and (x["noise"] is None or x["noise"]["dt"] == x["sig"]["dt"]):
         c["narrow"] = nw                                      # x holds a narrow dtype, integers close to the top of its range
@@ -534,6 +534,8 @@ PARTS = [
     Part("ctor", e_ctor, s_ctor(), quick=800, thorough=15000, shards=8, rule="non-trivial: noise given and (scalar/2-D input or n_pol=2)"),
     Part("ctor_bad", e_bad, s_bad, quick=150, thorough=1800, shards=2, rule="rejected shapes"),
     Part("binop", e_binop, s_binop(), quick=2500, thorough=36000, shards=16, quick_shards=2, rule="non-trivial: noise on exactly one side, length-1 noisy operand, reflected list/str, mixed dtypes"),
+    Part("binop_huge", e_binop, s_binop(force_huge=True), quick=20, thorough=120, shards=16, quick_shards=4, shrink=False,
+         rule="every case: 2^17 .. 2^18 samples, operand objects of the same dtype half of the time, writeable operands half of the time"),
     Part("slices", e_slice, s_slice, quick=1200, thorough=24000, shards=8, rule="non-trivial: noisy operand or 2-pol slice down to length 1"),
     Part("trees", e_tree, s_tree(), quick=900, thorough=18000, shards=16, quick_shards=2, rule="non-trivial: depth >= 3"),
 ]
